@@ -2,8 +2,8 @@
 
 This is the *regenerated* half of the tie between model and code (DESIGN.md section 11): on every check
 run the functions listed in TARGETS are read from the working tree with `ast`, translated statement by
-statement into `lean/NumbersModel/Gen/Translated.lean` (written only if its text changes), and the
-hand-written equivalence theorems in `Lemmas/Translated.lean` (`<fn>_eq_model`) are re-checked by
+statement into `lean/NumbersModel/Gen/Tr<Group>.lean` (one file per group, written only if its text changes), and the
+hand-written equivalence theorems in `Lemmas/Tr<Group>.lean` (`<fn>_eq_model`) are re-checked by
 `lake build`: each says that the translated definition *is* the hand-written model function the
 property theorems are about.  A change to the Python source changes the generated definition, so the
 equivalence proof — and with it every corollary in `Props/` stated over the translated definitions —
@@ -12,18 +12,29 @@ has to go through again against what the code says now.
 Supported subset (anything else raises `Unsupported`, which leaves the definition out of the generated
 file, so the equivalence theorem no longer compiles and the check reports a broken proof obligation):
 
-  types       int -> Int, bool -> Bool, str -> Text (= List Char), tuples, list[T], Optional[T], and the two
-              structures of Py/Trans.lean (`Item`, `Key`)
-  statements  assignment (also tuple targets, augmented), if/elif/else, while (fuel from the TARGETS entry;
-              `OutOfFuel` is an explicit outcome, "fuel suffices" is a lemma), for over
-              `enumerate(reversed(s))` / `reversed(s)` / `enumerate(s)` / a str or list / `range(n)`
-              (structural recursion, no fuel), return (also from inside a loop), raise, break, continue
-  expressions int / str / bool constants, names, + - * // % ** comparisons (chained), and / or / not on
-              bools, truthiness of int / str / list / Optional in tests, conditional expressions,
-              `int(a / b)` on ints (true division then truncation, see PyT.trueDivTrunc), ord, chr, len,
-              str, int, abs, max, min, f-strings without format specs, indexing and slicing,
-              calls of other translated functions (positional / keyword / default arguments), and the
-              extern calls named in the TARGETS entry (regex matches stay hand-modelled scanners)
+  types       int -> Int, bool -> Bool, str -> Text (= List Char), tuples, list[T], Optional[T], bytes / bytearray -> Bytes,
+              dict[str, V] -> its items in insertion order, the two structures of Py/Trans.lean (`Item`, `Key`),
+              `millis` (a float known to hold a whole number of milliseconds -> PyT.Millis), type variables of the entry
+              (values the code only passes around) and `raw` parameters (third-party functions such as str.isalpha)
+  statements  assignment (also tuple targets, augmented, `buf[i] = x` / `buf[i] op= x` on a bytearray, `d[k] = v` on a dict the
+              entry carries as a state variable), if/elif/else, `if x is None: x = e`, while (fuel from the TARGETS entry;
+              `OutOfFuel` is an explicit outcome, "fuel suffices" is a lemma), for over `enumerate(reversed(s))` /
+              `reversed(s)` / `enumerate(s)` / a str or list / `range(n)` / `range(a, b[, c])` (structural recursion, no
+              fuel), return (also from inside a loop; with `state` variables of the entry returned beside the value),
+              raise, break, continue
+  expressions int / str / bool / None constants, names, module constants whose live value is an int (`module_consts`),
+              + - * // % ** & | << >> comparisons (chained), `x is [not] None`, `k in d`, and / or / not on bools (also
+              `x is not None and P(x)` with x narrowed), truthiness of int / str / list / Optional / millis in tests,
+              conditional expressions (also with a `None` branch or branches that can raise), `int(a / b)` and
+              `int(ceil(a / 7.0))` on ints (PyT.trueDivTrunc, PyT.ceilDivFloat), ord, chr, len, str, int, abs, max, min,
+              bytearray(n), math.floor on millis, `[*s]`, list comprehensions (an element that can raise: mapM),
+              f-strings without format specs, indexing and slicing (tuples: literal index), calls of other translated
+              functions (positional / keyword / default arguments), methods named in the entry (`methods`), and the
+              extern calls named in the TARGETS entry (regex matches stay hand-modelled scanners; an extern may drop
+              arguments, take keyword arguments and `*args`)
+  entries     `until` (translate the prefix before a statement and return named variables), `body_of` (translate the body of
+              one loop statement), `skip` (statements whose effect is supplied as parameters), `attrs` (attribute / item
+              chains that are parameters), `state` (what the method leaves in `self`, returned beside the value)
 
 Every construct is translated to the operation of Py/Trans.lean / Py/Basic.lean that states its Python
 meaning; everything that can raise lives in `PyM = Except PyExc`.
